@@ -28,7 +28,9 @@ def _int_strategy(name):
     size, signed = INTS[name]
     bits = size * 8
     lo, hi = (-(1 << (bits - 1)), (1 << (bits - 1)) - 1) if signed else (0, (1 << bits) - 1)
-    edge = st.sampled_from(sorted(set([lo, hi, 0, 1, hi - 1, lo + 1, hi // 2, 0x0102030405060708 & hi])))
+    # extremes, a value with all bytes different, values whose 16-bit words (or bytes) repeat
+    edge = st.sampled_from(sorted(set([lo, hi, 0, 1, hi - 1, lo + 1, hi // 2, 0x0102030405060708 & hi, 0x1234123412341234 & hi, 0x7F7F7F7F7F7F7F7F & hi,
+                                       0x00FF00FF00FF00FF & hi, 0x0100010001000100 & hi])))
     return st.tuples(st.just(name), st.one_of(st.integers(lo, hi), edge))
 
 
@@ -73,7 +75,7 @@ def sweeps(tier):
                 for name, (size, signed) in sorted(INTS.items()):
                     bits = size * 8
                     lo, hi = (-(1 << (bits - 1)), (1 << (bits - 1)) - 1) if signed else (0, (1 << bits) - 1)
-                    for v in sorted(set([lo, hi, 0, 1, -1 if signed else 2, 0x0102030405060708 & hi])):
+                    for v in sorted(set([lo, hi, 0, 1, -1 if signed else 2, 0x0102030405060708 & hi, 0x1234123412341234 & hi, 0x00FF00FF00FF00FF & hi])):
                         cases.append({'bo': bo, 'wo': wo, 'via': via, 'items': [[name, v]]})
                         cases.append({'bo': bo, 'wo': wo, 'via': via, 'items': [['u8', 7], [name, v], ['u16', 0xABCD]]})
                 for name, (size, _) in sorted(FLOATS.items()):
